@@ -8,6 +8,9 @@ BUILD = os.path.join(ROOT, 'build')
 # when checks are pointed at another copy of the repository (seed matrix runs) evidence and replay files go to a scratch place
 ALT = os.environ.get('VERIF_REPO', '/repo') != '/repo'
 OUTROOT = os.path.join(BUILD, 'alt') if ALT else ROOT
+# binaries built against another copy of the repository live apart: a seeded-change run must never evict (or be evicted by) the
+# binaries of a check that is running against /repo at the same time
+BINDIR = os.path.join(BUILD, 'alt', 'bin') if ALT else os.path.join(BUILD, 'bin')
 INC = ['-I' + os.path.join(REPO, 'include'), '-I/usr/include/eigen3', '-I' + os.path.join(REPO, 'external/tl'),
        '-I' + os.path.join(ROOT, 'engine')]
 CXX = os.environ.get('VERIF_CXX', 'g++')
@@ -115,7 +118,7 @@ class Unit:
         return v
 
     def binary(self):
-        return os.path.join(BUILD, 'bin', self.stem() + '.' + self.key())
+        return os.path.join(BINDIR, self.stem() + '.' + self.key())
 
 
 def build_obj(name, src, flags):
@@ -170,7 +173,7 @@ def build_unit(u):
     if r.returncode != 0:
         return (u, False, r.stderr[-6000:])
     os.replace(tmp, out)
-    for old in glob.glob(os.path.join(BUILD, 'bin', u.stem() + '.*')):
+    for old in glob.glob(os.path.join(BINDIR, u.stem() + '.*')):
         if old != out and '.tmp' not in old:
             try:
                 os.remove(old)
